@@ -10,6 +10,7 @@
 package pbcmpl
 
 import (
+	"bytes"
 	"io"
 
 	"github.com/openacid/errors"
@@ -119,16 +120,34 @@ func Unmarshal(r io.Reader, msg proto.Message) (int64, string, error) {
 		return n, ver, errors.WithStack(ErrInvalidHeaderSize)
 	}
 
-	b := make([]byte, hi.GetBodySize())
-	nbody, err := io.ReadFull(r, b)
-	n += int64(nbody)
+	bodySize := hi.GetBodySize()
+	if bodySize < 0 {
+		return n, ver, errors.WithStack(ErrInvalidBodySize)
+	}
+
+	// The body size comes from the stream and can not be trusted: do not
+	// allocate it up front, let the buffer grow with the bytes that arrive.
+	b := &bytes.Buffer{}
+	if bodySize <= maxBodyPrealloc {
+		b.Grow(int(bodySize))
+	}
+	nbody, err := io.CopyN(b, r, bodySize)
+	n += nbody
 	if err != nil {
+		if err == io.EOF && nbody > 0 {
+			// same as io.ReadFull: EOF in the middle of the body
+			err = io.ErrUnexpectedEOF
+		}
 		return n, ver, errors.WithStack(err)
 	}
 
-	err = proto.Unmarshal(b, msg)
+	err = proto.Unmarshal(b.Bytes(), msg)
 	return n, ver, errors.WithStack(err)
 }
+
+// maxBodyPrealloc is the largest body buffer Unmarshal allocates before any
+// body byte has been read.
+const maxBodyPrealloc = 1 << 20
 
 // HeaderSize returns the marshaled size of the header for a proto.Message .
 //
